@@ -1,6 +1,8 @@
 package c11
 
 import (
+	"encoding/json"
+	"os"
 	"fmt"
 	"sort"
 	"testing"
@@ -59,4 +61,87 @@ func TestDevLattice(t *testing.T) {
 		fmt.Printf("%5d %s\n      e.g. %s\n", groups[k], k, example[k])
 	}
 	fmt.Println(st.Counters)
+}
+
+func TestDevLock(t *testing.T) {
+	setup()
+	groups := map[string]int{}
+	example := map[string]string{}
+	N := 2500
+	type res struct {
+		i  int
+		r  core.Result
+		st *core.Stats
+	}
+	ch := make(chan res, 100)
+	const W = 6
+	seed := uint64(1)
+	if s := os.Getenv("C11_SEED"); s != "" {
+		fmt.Sscan(s, &seed)
+	}
+	for w := 0; w < W; w++ {
+		go func(w int) {
+			for i := w; i < N; i += W {
+				idx := len(lattice) + len(revoked) + i
+				c := &core.Ctx{Property: "C11", Tier: "quick", Seed: seed, Index: idx, Rng: core.CaseRng(seed, "C11", idx), Stats: core.NewStats()}
+				ch <- res{i, run(c), c.Stats}
+			}
+		}(w)
+	}
+	incWhy := map[string]int{}
+	nt := 0
+	for n := 0; n < N; n++ {
+		rr := <-ch
+		if rr.r.NonTrivial {
+			nt++
+		}
+		for k := range rr.st.Sets["lock_target_inconsistencies"] {
+			incWhy[k]++
+		}
+		if rr.r.Verdict == core.Inconclusive {
+			groups["INC "+rr.r.Monitor]++
+		}
+		if rr.r.Verdict == core.Violated {
+			k := rr.r.Signature
+			groups[k]++
+			if _, ok := example[k]; !ok {
+				example[k] = fmt.Sprintf("idx %d: %s", rr.i, rr.r.Detail)
+			}
+		}
+	}
+	var ks []string
+	for k := range groups {
+		ks = append(ks, k)
+	}
+	sort.Slice(ks, func(i, j int) bool { return groups[ks[i]] > groups[ks[j]] })
+	for _, k := range ks {
+		fmt.Printf("%5d %s\n      e.g. %s\n", groups[k], k, example[k])
+	}
+	fmt.Println("nontrivial", nt, "distinct sigs", len(groups))
+	var ws []string
+	for k := range incWhy {
+		ws = append(ws, k)
+	}
+	sort.Strings(ws)
+	for _, k := range ws {
+		fmt.Printf("INCWHY %d %s\n", incWhy[k], k)
+	}
+}
+
+func TestDevCase(t *testing.T) {
+	setup()
+	var lc lockCase
+	if err := json.Unmarshal([]byte(os.Getenv("C11_CASE")), &lc); err != nil {
+		t.Skip("no case")
+	}
+	res := execLock(&lc, nil)
+	if res.out != nil {
+		for _, r := range res.out.Recs {
+			b, _ := json.MarshalIndent(r, "", " ")
+			fmt.Println(string(b))
+		}
+	}
+	if res.viol != nil {
+		fmt.Println("VIOL", res.viol.monitor, res.viol.class, res.viol.detail)
+	}
 }
